@@ -2400,7 +2400,9 @@ bool NifFile::GetNodeTransformToGlobal(const std::string& nodeName, MatTransform
 
 		MatTransform xform = node->GetTransformToParent();
 		NiNode* parent = GetParentNode(node);
-		while (parent) {
+		// A parent chain is never longer than the block count; stop when child references form a cycle
+		size_t steps = 0;
+		while (parent && steps++ < blocks.size()) {
 			xform = parent->GetTransformToParent().ComposeTransforms(xform);
 			parent = GetParentNode(parent);
 		}
@@ -2776,6 +2778,9 @@ bool NifFile::GetShapeBoneBounds(NiShape* shape, const uint32_t boneIndex, Bound
 	if (skinForBoneRef) {
 		auto boneData = hdr.GetBlock(skinForBoneRef->dataRef);
 		if (boneData) {
+			if (boneIndex >= boneData->nBones)
+				return false;
+
 			outBounds = boneData->boneXforms[boneIndex].bounds;
 			return true;
 		}
